@@ -110,6 +110,11 @@ def make_ensemble(key, classes, missing, opts):
                                    metric_dict={"gamma": g}, random_state=i)
             for i, g in enumerate([0.3, 1.0, 3.0])
         ]
+    if key == "pwc_tuple":
+        return tuple(
+            ParzenWindowClassifier(classes=classes, missing_label=missing,
+                                   metric_dict={"gamma": g}, random_state=i)
+            for i, g in enumerate([0.5, 2.0]))
     if key == "gnb_pwc_list":
         return [make_clf("gnb", classes, missing, opts, 1),
                 make_clf("pwc", classes, missing, opts, 2)]
@@ -234,6 +239,8 @@ POOL_ENTRIES = [
     E("QBC[variation_ratios]", "QueryByCommittee",
       {"method": "variation_ratios"}, ("ensemble", "gnb_pwc_list"),
       sw="full", arb_idx=True),
+    E("QBC[KL,tuple]", "QueryByCommittee", {"method": "KL_divergence"},
+      ("ensemble", "pwc_tuple"), sw="full", arb_idx=True, weight=0.5),
     E("QBC[KL,rf]", "QueryByCommittee", {"method": "KL_divergence"},
       ("ensemble", "rf"), sw="full", arb_idx=True, weight=0.4),
     E("QBC[regression]", "QueryByCommittee", {},
